@@ -858,7 +858,7 @@ func main() {
 	pool := poolPhase(e, 3)
 	errs := errPhase(e)
 	crypt := cryptPhase(e, e.Pick(25, 400))
-	stress := map[string]any{"cmap": cmapStress(e, e.Pick(30, 120)), "exclusive": exclStress(e, e.Pick(60000, 400000))}
+	stress := map[string]any{"cmap": cmapStress(e, e.Pick(30, 120)), "exclusive": exclStress(e, e.Pick(30000, 400000))}
 	e.Finish("every schedule of every listed program with <= 2 goroutines on the real Decode/DecodeExclusive/StoreOrLoadPair (stateless DFS over the verif scheduling points); programs with 3 goroutines: a fixed budget of random schedules (sampling, not exhaustive); oracle: pointer identity per (object,type), one exclusive decoder run, no deadlock/panic/unlocked critical section, later sequential Decode returns the same pointer, every successful call returns a value made by a decode function of its own type for its own object; every schedule replayed in the extracted Coq model. Pool oracle and error-value oracle (deterministic): see coverage.pool, coverage.errors",
 		map[string]any{
 			"schedules_explored":              x.nsched,
